@@ -35,6 +35,8 @@ TABLE = {
  "task.wait_until stops its triggers when the waiting task is cancelled": ("C15", "new subsystem: wait_until killed while waiting left bus listeners, state subscriptions, MQTT subscriptions and webhook handlers registered"),
  "task.wait_until(timeout=0) times out immediately in the new subsystem": ("C15", "new subsystem: task.wait_until(event_trigger='ev1', timeout=0) never returned"),
  "task.wait_until returns 'none' only when nothing but exhausted time triggers was given": ("C15", "new subsystem: task.wait_until(time_trigger='once(2020/1/1 00:00)', mqtt_trigger='t/a') returned trigger_type 'none' at once"),
+ "a done callback that raises no longer cancels the remaining done callbacks": ("C14", "task with done callbacks [cbRaise, cbA]: after cbRaise raised, cbA never ran"),
+ "tasks started by service calls support done callbacks": ("C14", "@service function calling task.add_done_callback(task.current_task(), cb) failed with KeyError: the service task had no callback table"),
 }
 log = subprocess.run(["git", "-C", "/repo", "log", "--reverse", "--format=%h %s"], capture_output=True, text=True).stdout.strip().split("\n")
 fixed = []
